@@ -14,6 +14,7 @@ import (
 	"runtime"
 	"sync"
 	"sync/atomic"
+	"syscall"
 	"time"
 )
 
@@ -235,6 +236,12 @@ func RunWorker(p *Prop, tier string, seed int64, shard, n, skip, only int, outPa
 	if p.CaseTimeout > 0 {
 		w.timeout = p.CaseTimeout
 	}
+	if !RaceBuild {
+		// address-space cap: a runaway allocation fails inside this worker ("cannot allocate
+		// memory" → memory proviso) instead of exhausting the machine
+		lim := uint64(6 << 30)
+		syscall.Setrlimit(syscall.RLIMIT_AS, &syscall.Rlimit{Cur: lim, Max: lim})
+	}
 	go w.watchdog()
 	p.Run(w)
 	w.writeLine(map[string]any{"done": true, "cases": w.idx})
@@ -253,9 +260,9 @@ func (w *W) watchdog() {
 		if st != 0 && time.Since(time.Unix(0, st)) > w.timeout {
 			w.abort("watchdog", 4)
 		}
-		if tick%5 == 0 {
+		if tick%2 == 0 {
 			runtime.ReadMemStats(&ms)
-			if ms.HeapAlloc > 3<<30 {
+			if ms.HeapAlloc > 2<<30 {
 				w.abort("memory", 3)
 			}
 		}
